@@ -24,7 +24,7 @@ for mp in sorted(glob.glob(os.path.join(ROOT, "seeded", "*", "meta.json"))):
     m = json.load(open(mp))
     v = m.get("verification", {})
     cs = ", ".join("%s (%s, exit %s, %ss)" % (k, c.get("tier"), c.get("exit"), c.get("wall_s")) for k, c in sorted(v.get("checks", {}).items()))
-    rows.append("| seeded/%s | %s | %s | %s | %s |" % (os.path.basename(os.path.dirname(mp)), m.get("property"), "yes" if v.get("confirmed") else "NO", (cs if v.get("caught_by") else "**missed**: " + cs) + ((" - " + m["first_result"].split(";")[0]) if m.get("first_result") else ""), str(m.get("needs_to_manifest", "")).replace("|", "/").replace("\n", " ")[:300]))
+    rows.append("| seeded/%s | %s | %s | %s | %s |" % (os.path.basename(os.path.dirname(mp)), m.get("property"), "yes" if v.get("confirmed") else "NO", (("not claimed: " + m["not_claimed"]) if m.get("not_claimed") else cs if v.get("caught_by") else "**missed**: " + cs) + ((" - " + m["first_result"].split(";")[0]) if m.get("first_result") else ""), str(m.get("needs_to_manifest", "")).replace("|", "/").replace("\n", " ")[:300]))
 _s = "<!-- BEGIN GENERATED SEEDED -->\n" + "\n".join(rows) + "\n<!-- END GENERATED SEEDED -->"
 s = re.sub(r"<!-- BEGIN GENERATED SEEDED -->.*<!-- END GENERATED SEEDED -->", lambda _x: _s, s, flags=re.S)
 open(p, "w").write(s)
